@@ -325,6 +325,14 @@ func (f *LocalFile) AddDirective(name string, args ...string) {
 	if len(f.comments()) == 0 {
 		b.WriteByte('\n')
 	}
+	// The delimiter directive is recognized by the scanner only on
+	// the first line of the file. Hence, it must keep its position.
+	if _, ok := directive(string(f.b), directiveDelimiter, directivePrefixSQL); ok && name != directiveDelimiter {
+		if i := bytes.IndexByte(f.b, '\n'); i != -1 {
+			f.b = append(f.b[:i+1:i+1], append([]byte(b.String()), f.b[i+1:]...)...)
+			return
+		}
+	}
 	f.b = append([]byte(b.String()), f.b...)
 }
 
